@@ -21,6 +21,11 @@ pub fn sections(cfg: &RunCfg) -> Vec<Box<dyn AnySection>> {
         .into_iter()
         // the exact-phase oracle costs ~10x a plain transition: in the quick tier the depth-2 closure is kept for three sets only
         .filter(|(name, _, _, _)| !quick || !["bfv_p2_pow2", "bgv_p4", "bfv_p11_short", "bgv_p8_spenc"].contains(&name.as_str()))
+        // thorough: the restricted depth-3 closure with the exact-phase oracle is kept for two sets (about 3 min each)
+        .map(|(name, spec, depth, abs)| {
+            let keep3 = ["bfv_p1", "bgv_p5_t5"].contains(&name.as_str());
+            (name, spec, if depth > 2 && !keep3 { 2 } else { depth }, abs)
+        })
         .map(|(name, spec, depth, abs)| {
             let deep = ["bfv_p1", "bgv_p5_t5", "bgv_p12_short"].contains(&name.as_str());
             (name, spec, if quick && !deep { 1 } else { depth }, abs)
